@@ -190,6 +190,22 @@ def h_concrete(ctx, case):
         _wf_finite(ctx, case, Y, [2, 2, 2])
         Y = teneva.als(I, y * 0., teneva.rand([2, 2, 2], 2, seed=7), nswp=2)
         _wf_finite(ctx, case + '_zero', Y, [2, 2, 2])
+    elif case == 'als_tiny_lamb':
+        # regularisation lost in rounding (or switched off) with rank-deficient local problems
+        I = np.array([[0, 0, 1], [1, 1, 0], [0, 0, 1], [1, 0, 0], [0, 1, 1], [0, 0, 1]])
+        for lamb in (1e-30, 0.):
+            for y in (np.ones(len(I)) * 3., np.zeros(len(I))):
+                Y = teneva.als(I, y, teneva.rand([2, 2, 2], 2, seed=7), nswp=2, lamb=lamb)
+                _wf_finite(ctx, case, Y, [2, 2, 2])
+        Y = teneva.als(I, np.ones(len(I)), [G * 0. for G in teneva.rand([2, 2, 2], 2, seed=7)], nswp=1, lamb=1e-30)
+        _wf_finite(ctx, case + '_zero_start', Y, [2, 2, 2])
+    elif case == 'qtt_redundant_mode2':
+        # mode size 2 (a single QTT core per mode) with ranks above what the unfoldings support
+        X = teneva.rand([2, 2, 2], 2, seed=3)
+        for T in (teneva.add(X, X), teneva.mul(X, 0.), [np.ones((1, 2, 7)), np.ones((7, 2, 1))],
+                  teneva.rand([2, 2], 5, seed=4), teneva.rand([2, 4, 2], [1, 6, 6, 1], seed=5)):
+            Q = teneva.tt_to_qtt(T)
+            _wf_finite(ctx, case, Q, [2] * sum(int(np.log2(G.shape[1])) for G in T))
     elif case == 'anova_constant':
         I = teneva.sample_lhs([3, 3, 3], 12, seed=8)
         y = np.ones(len(I))
@@ -232,7 +248,8 @@ def instances(tier):
     for dup in (False, True):
         out.append({'func': 'h_als_small', 'params': {'dup': dup}})
     for case in ['cancelling_zero', 'cross_zero', 'cross_const', 'cross_d2_mode1', 'truncate_overranked', 'truncate_zero_generic',
-                 'rank_deficient_generic', 'als_constant_repeated', 'anova_constant', 'cheb_constant']:
+                 'rank_deficient_generic', 'als_constant_repeated', 'als_tiny_lamb', 'qtt_redundant_mode2', 'anova_constant',
+                 'cheb_constant']:
         out.append({'func': 'h_concrete', 'params': {'case': case}, 'opts': {'concrete_only': True}})
     return out
 
